@@ -228,6 +228,7 @@ func init() {
 		if rm == nil {
 			panic(targetPanic{runtime: "invalid memory address or nil pointer dereference (nil *regexp.Regexp)", site: site})
 		}
+		in.raceSlice(a[1], false, site)
 		s := bsliceStr(a[1].(BSlice))
 		return rm.match(s.arr, s.off, s.len)
 	}
